@@ -142,6 +142,38 @@ func (e *Env) hangContext() string {
 	return " trigger=" + strings.Join(tags, "+") + model
 }
 
+// RepeatsLeaf reports whether some relation uses the same leaf operand (computed userset,
+// tuple-to-userset or direct assignment) twice anywhere in its rewrite.
+func RepeatsLeaf(m *rm.Model) bool {
+	for _, t := range m.Types {
+		for _, r := range t.Relations {
+			seen := map[string]bool{}
+			dup := false
+			var walk func(rw *rm.Rewrite)
+			walk = func(rw *rm.Rewrite) {
+				if rw == nil {
+					return
+				}
+				if len(rw.Children) == 0 {
+					k := fmt.Sprintf("%d:%s:%s", rw.Kind, rw.Relation, rw.Tupleset)
+					if seen[k] {
+						dup = true
+					}
+					seen[k] = true
+				}
+				for _, c := range rw.Children {
+					walk(c)
+				}
+			}
+			walk(r.Rewrite)
+			if dup {
+				return true
+			}
+		}
+	}
+	return false
+}
+
 // RepeatsOperand reports whether some relation's rewrite contains a union or intersection that,
 // once nested operators of the same kind are flattened, lists the same operand twice.
 func RepeatsOperand(m *rm.Model) bool {
@@ -541,6 +573,8 @@ func (e *Env) missingTags(st *rm.State, rq gen.Request, o string) string {
 		return " unsatisfied_conditional_tuple_shadows_sibling_of_same_object"
 	case DirectUsersetAndComputedSameRelation(e.Sc.Model, rm.ObjType(o), rq.Rel):
 		return " direct_userset_and_computed_of_same_relation"
+	case RepeatsLeaf(e.Sc.Model):
+		return " model_repeats_a_leaf_operand_in_one_relation"
 	}
 	return ""
 }
@@ -662,7 +696,7 @@ func ReachesMutualRecursion(m *rm.Model, typ, rel string) bool {
 }
 
 // SelfRecursiveUsersetUnion: some relation reachable from typ#rel is directly assignable to its own
-// userset (T#r on T#r) and has further branches besides the direct assignment.
+// userset (T#r on T#r), alone or next to further branches.
 func SelfRecursiveUsersetUnion(m *rm.Model, typ, rel string) bool {
 	type node struct{ t, r string }
 	seen := map[node]bool{}
@@ -698,7 +732,7 @@ func SelfRecursiveUsersetUnion(m *rm.Model, typ, rel string) bool {
 		for _, res := range r.Restrictions {
 			if res.Relation != "" {
 				stack = append(stack, node{res.Type, res.Relation})
-				if res.Type == n.t && res.Relation == n.r && r.Rewrite.Kind != rm.This {
+				if res.Type == n.t && res.Relation == n.r {
 					return true
 				}
 			}
